@@ -17,7 +17,8 @@ RULE = ('per family, value -> names shown in the rendered text of a decoder that
         '2^12 subsets x 4 access modes, access 0..15, flock 0..255, chflags all subsets, VM protection 0..255, thread '
         'state 0..255, KPERF_TI 0..65535 (quick: strided), callstack flags 0..1023, sampler 0..16383 (quick: strided), '
         'RTLD all subsets, AST and MSG words: zero, singletons, pairs, all-ones, undeclared-only bits, random; '
-        'ioctl: every named direction x every length 0..0x1fff, every group, every number (each field exhaustive, the '
+        'symbolic: for EVERY BSD syscall decoder, a parameter rendered as a list of flag names at position p must be the decoding of '
+        'START word p (same oracle); ioctl: every named direction x every length 0..0x1fff, every group, every number (each field exhaustive, the '
         'others pseudo-random) + random words -> exact inverse of _IOC. Non-trivial: >= 2 named bits or a non-zero '
         'multi-bit field; distinct by (family, value).')
 ASSUMPTIONS = ['flag tables are typed from xnu headers; kernel-private members (MSG_COMPAT.., SO_*) are a reviewed snapshot',
@@ -90,6 +91,12 @@ ZERO_FIELD = {'access': 7}
 def check_word(fam, v):
     obs, bits, fields, zero_name = FAMILIES[fam]
     shown = guard(obs, v)
+    return judge(fam, v, shown)
+
+
+def judge(fam, v, shown):
+    """the oracle proper: names `shown` for value `v` of family `fam`"""
+    _, bits, fields, zero_name = FAMILIES[fam]
     if len(set(shown)) != len(shown):
         raise Violation(f'duplicate-name:{fam}', f'{fam} {v:#x}: {shown}')
     known = {n: val for val, n in bits.items()}
@@ -182,7 +189,41 @@ def prop_ioctl(ctx, case):
     ctx.note(['ioctl', req], nontrivial=ln > 0 and g > 0, classes=['ioctl', 'len>=0x1000' if ln >= 0x1000 else 'len<0x1000'])
 
 
-PROPS = {'word': prop_word, 'values': prop_values, 'ioctl': prop_ioctl}
+PREFIX_FAMILY = [('O_', 'open'), ('S_I', 'stat'), ('LOCK_', 'flock'), ('UF_', 'chflags'), ('SF_', 'chflags'), ('MSG_', 'msg'),
+                 ('RTLD_', 'rtld'), ('F_OK', 'access'), ('X_OK', 'access'), ('W_OK', 'access'), ('R_OK', 'access')]
+
+
+def prop_symbolic(ctx, case):
+    """every decoder: a parameter shown as a list of flag names at position p is the decoding of START word p"""
+    from .. import domains
+    name, seed = case['name'], case['seed']
+    d = domains.project(name, 1, S.expand_words(seed + 4096, 0))
+    a = [int.from_bytes(d[8 * i:8 * i + 8], 'little') for i in range(4)]
+    for k in case['small']:          # keep some words small so that declared bits dominate
+        a[k % 4] &= 0x1ffffff
+    d = domains.project(name, 1, a)
+    a = [int.from_bytes(d[8 * i:8 * i + 8], 'little') for i in range(4)]
+    txt = guard(render, name, a, Z4)
+    sc = TP.split_call(txt)
+    if sc is None:
+        return
+    hits = []
+    for p, ptxt in enumerate(sc[1][:4]):
+        toks = names_of(ptxt)
+        if not toks or not all(re.match(r'^[A-Z][A-Z0-9_]*$', t) for t in toks):
+            continue
+        fam = next((f for pre, f in PREFIX_FAMILY if toks[0].startswith(pre)), None)
+        if fam is None:
+            continue
+        try:
+            judge(fam, a[p], toks)
+        except Violation as v:
+            raise Violation(f'{v.signature}@{name}', f'{name}: parameter {p} shows {toks} but START word {p} is {a[p]:#x} ({v.message}); text={txt!r}') from v
+        hits.append([p, fam])
+    ctx.note([name, a], nontrivial=bool(hits), classes=['symbolic:' + f for _, f in hits] or ['symbolic:none'])
+
+
+PROPS = {'word': prop_word, 'values': prop_values, 'ioctl': prop_ioctl, 'symbolic': prop_symbolic}
 
 
 def subsets(bits):
@@ -268,6 +309,11 @@ def run(ctx):
     strat = st.fixed_dictionaries({'dir': st.sampled_from(dirs), 'group': st.integers(0, 255), 'num': st.integers(0, 255),
                                    'len': st.integers(0, 0x1fff)})
     ctx.run_given('ioctl', strat, prop_ioctl, ctx.n(1000, 20000))
+    byname = EV.by_name()
+    decs = [n for n in EV.decodable_names()['bsd'] if n in byname]
+    sym = [{'name': n, 'seed': ctx.seed * 7907 + 13 * i + 1000003 * r, 'small': [(i + r) % 4, (i + 2 * r + 1) % 4]}
+           for r in range(ctx.n(6, 30)) for i, n in enumerate(decs)]
+    ctx.run_enum('symbolic', sym, prop_symbolic, exhaustive_label='every BSD decoder: symbolic parameters against their own START word')
     fam = st.sampled_from(sorted(FAMILIES))
     ctx.run_given('word', st.fixed_dictionaries({'family': fam, 'value': st.one_of(S.u64, S.u32, st.integers(0, 0xffff))}),
                   prop_word, ctx.n(1500, 30000))
